@@ -23,6 +23,7 @@ func (p *Program) Print() string {
 		pr := &printer{sb: &sb}
 		if p.Script != nil {
 			pr.script = p.Script.Name
+			pr.scriptArg2 = p.Script.ScriptArg2()
 		}
 		pr.nodes(c.Body, 1)
 		pr.sep(c.End, 0)
@@ -32,7 +33,7 @@ func (p *Program) Print() string {
 		}
 	}
 	if p.Script != nil {
-		fmt.Fprintf(&sb, "script %s(x string) {\n\t%s\n}\n\n", p.Script.Name, p.Script.Body)
+		fmt.Fprintf(&sb, "script %s(%s) {\n\t%s\n}\n\n", p.Script.Name, p.Script.ScriptParams(), p.Script.Body)
 	}
 	if p.CSS != nil {
 		fmt.Fprintf(&sb, "css %s() {\n", p.CSS.Name)
@@ -54,6 +55,7 @@ type printer struct {
 	// (`<a id=v>` is rejected, `<a id=v >` is accepted)
 	lastUnquoted bool
 	script       string // name of the file's script template
+	scriptArg2   string // Go text of its constant second argument
 }
 
 func (pr *printer) sep(s Sep, depth int) {
@@ -139,7 +141,7 @@ func (pr *printer) attrs(as []*Attr, depth int, nl bool) {
 		case ASpread:
 			w.WriteString("{ a.At... }")
 		case AOnEvent:
-			w.WriteString(a.Name + "={ " + pr.script + "(" + a.X.Src() + ") }")
+			w.WriteString(a.Name + "={ " + pr.script + "(" + a.X.Src() + pr.scriptArg2 + ") }")
 		case AClass:
 			var ps []string
 			for _, p := range a.Parts {
@@ -256,7 +258,7 @@ func (pr *printer) node(n *Node, depth int) {
 			w.WriteString("}")
 		}
 	case KScriptCall:
-		w.WriteString("@" + pr.script + "(" + n.ArgS.Src() + ")")
+		w.WriteString("@" + pr.script + "(" + n.ArgS.Src() + pr.scriptArg2 + ")")
 	case KSlot:
 		if n.Sp%3 == 1 {
 			w.WriteString("{children...}")
